@@ -134,6 +134,13 @@ type sceneDesc struct {
 	AttrPool  []attrDesc    `json:"attr_pool,omitempty"` // backing arrays of attribute data
 	IdxPool   [][]int       `json:"idx_pool,omitempty"`  // backing arrays of indices
 	InstPool  [][]instDesc  `json:"inst_pool,omitempty"` // backing arrays of GPU instances
+	// how the documents are produced (invisible to the specification: the scene is the same):
+	//   ""         gltf.WriteBinary / gltf.WriteText, a fresh writer each
+	//   "reuse"    ONE Writer: WriteGLB, then ToGLTF(base64) -> text, then WriteGLB again; the text and the SECOND GLB are judged
+	//   "split"    ONE Writer, AddScene(models[:Split]) then AddScene(models[Split:] + lights)
+	//   "addlight" ONE Writer, AddScene(models) then AddLight for every light
+	Via   string `json:"via,omitempty"`
+	Split int    `json:"split,omitempty"`
 }
 
 // sliceRuns is the run-length description of elements off..off+n of the sequence runs describes
